@@ -120,7 +120,13 @@ pub fn suite(ctx: &mut Ctx, cold: bool) {
                         } else {
                             vec![ops::Op::Resolve { path: path.to_vec(), nofollow: false }]
                         };
-                        for op in opsv {
+                        // (operation, resolver flags): the following lookup of the trailing link once more with NO_SYMLINKS,
+                        // where refusing is certain and only the reason (EACCES before ELOOP in the kernel) is compared
+                        let mut opsv: Vec<(ops::Op, ResolverFlags)> = opsv.into_iter().map(|o| (o, ResolverFlags::empty())).collect();
+                        if position == "trailing" {
+                            opsv.push((ops::Op::Resolve { path: path.to_vec(), nofollow: false }, ResolverFlags::NO_SYMLINKS));
+                        }
+                        for (op, rflags) in opsv {
                         for emulated in [true, false] {
                             n += 1;
                             let id = format!("p{n}{}", if emulated { "e" } else { "k" });
@@ -140,6 +146,7 @@ pub fn suite(ctx: &mut Ctx, cold: bool) {
                                     }
                                 };
                                 root.verif_set_emulated(emulated);
+                                root.set_resolver_flags(rflags);
                                 let op = op.clone();
                                 let mut s = String::new();
                                 s.push_str(&format!("case {id}\nmeta seed=0 suite=c15 dir_mode={dir_mode:o} dir_uid={dir_uid} link_uid={link_uid} caller={caller} position={position}\n"));
@@ -147,9 +154,9 @@ pub fn suite(ctx: &mut Ctx, cold: bool) {
                                 s.push_str(&spec.lines());
                                 s.push_str(&op.line());
                                 s.push('\n');
-                                s.push_str(&crate::cfg_line(&root, emulated, ResolverFlags::empty()));
+                                s.push_str(&crate::cfg_line(&root, emulated, rflags));
                                 s.push('\n');
-                                let kern = ops::kernel_line(&root, &op, ResolverFlags::empty(), &labels);
+                                let kern = ops::kernel_line(&root, &op, rflags, &labels);
                                 let before = ops::fd_table();
                                 let (outcome, log) = ops::run_recorded(&root, &op, None);
                                 let after = ops::fd_table();
